@@ -277,22 +277,24 @@ class C13(Prop):
     title = 'Symbols are classified by their declared type and share it by scope'
     model_modules = ['LokiModel.C13.Model']
     props_module = 'LokiModel.Props.C13'
+    findings_module = 'LokiModel.Findings.C13'
     driver = 'Drivers/C13.lean'
     theorems = ['C13_classify_spec', 'C13_guards_exhaustive_exclusive', 'C13_classify_proc', 'C13_classify_derived_name',
-                'C13_classify_array', 'C13_classify_scalar', 'C13_classify_deferred', 'C13_class_full_false',
-                'C13_class_partial', 'C13_create_class', 'C13_type_shared_partial', 'C13_type_shared_history',
+                'C13_classify_array', 'C13_classify_scalar', 'C13_classify_deferred', 'C13_class', 'C13_create_class', 'C13_type_shared_partial', 'C13_type_shared_history',
                 'C13_type_shared_full_false', 'C13_unattached_stable', 'C13_create_unattached_reports',
                 'C13_create_reports', 'C13_create_inherits_and_pins', 'C13_rescope_keeps_existing',
-                'C13_rescope_inserts_missing', 'C13_rescope_array_stays_array', 'C13_tables_agree',
+                'C13_rescope_inserts_missing', 'C13_rescope_array_to_scalar', 'C13_tables_agree',
                 'C13_create_name_partial', 'C13_create_name_full_false', 'C13_read_pure_partial',
-                'C13_read_pure_full_false', 'C13_deferred_member_recursion_witness']
+                'C13_read_pure_full_false', 'C13_no_recursion']
     design_ref = 'DESIGN.md 4.B C13'
     level_text = ('Theorems (Lean kernel, every input / state / history, no bound). Classification: C13_classify_spec - the tier chain '
                   'of Variable.__new__ equals a five-row decision table (rows carry the negations of the rows above), rows exhaustive and '
                   'exclusive (C13_guards_exhaustive_exclusive), each row spelled out (C13_classify_proc/_derived_name/_array/_scalar/'
                   '_deferred); C13_create_class - every symbol the factory returns has the class of that table applied to the type it '
-                  'resolved. Against the table of the property statement (subscripts given = non-empty) the code differs: '
-                  'C13_class_full_false, and C13_class_partial holds outside class empty-dimensions-array. Sharing: '
+                  'resolved; C13_class - for every input the tier chain is the decision table of the property statement (subscripts '
+                  'given = non-empty tuple), full strength since the fix: commit for empty-dimensions-array (old behaviour kept in '
+                  'LokiModel/Findings/C13.lean). C13_no_recursion - reading a type, creating, cloning and rescoping always return, for '
+                  'every type-definition environment (full strength since the fix: commit for deferred-member-recursion). Sharing: '
                   'C13_type_shared_partial / _history - in every state (so after every history) after scope[name]=t every symbol of that '
                   'name attached to a scope resolving the name to that scope reports t and the read is pure, outside class '
                   'deferred-entry-on-member (C13_type_shared_full_false: a DEFERRED entry of a derived-type member is overridden by the '
@@ -300,11 +302,10 @@ class C13(Prop):
                   'its own type in every scope state; C13_create_reports / _unattached_reports / _inherits_and_pins (a symbol created '
                   'without type copies the declaration found up the chain into its own scope and no longer sees updates elsewhere). '
                   'Rescoping: C13_rescope_keeps_existing (an entry the target chain has wins over the own type, the only write is a copy '
-                  'into the target table), C13_rescope_inserts_missing (parentless symbols), C13_rescope_array_stays_array (witness). '
+                  'into the target table), C13_rescope_inserts_missing (parentless symbols), C13_rescope_array_to_scalar (example). '
                   'Witness-level only: reads rewriting sibling member entries (C13_read_pure_partial outside member fallback, '
                   'C13_read_pure_full_false), qualified name without parent (C13_create_name_partial for plain names, '
-                  'C13_create_name_full_false), RecursionError on DEFERRED members (C13_deferred_member_recursion_witness; absence of '
-                  'recursion for clean type definitions is checked by correspondence only). The model is tied to the code by an '
+                  'C13_create_name_full_false). The model is tied to the code by an '
                   'exhaustive cross products (declared type x shape x subscripts x parent mode x where the type is recorded, 2466 '
                   'histories; own type x recorded entry x place x attachment x subscripts for rescope/clone, 240 histories) and random histories on real Scope/TypeDef/Variable objects: class, name, scope, subscripts and type of '
                   'every symbol and the full content of every symbol table are compared after every operation.')
@@ -312,7 +313,7 @@ class C13(Prop):
                   'derived-type nesting is limited to one level (a, a%b; deeper names answer unsupported and are not generated); type '
                   'definitions are static lists of (member, type); attributes other than dtype/shape/one opaque tag, case_sensitive '
                   'symbols, weak references dying, the type setter on existing symbols and clone(parent=...) are not modelled. '
-                  'Python RecursionError is modelled as a result value; the state after it is the state after the first round of writes.')
+                  'The result type still has a recursion value (formerly Python RecursionError); C13_no_recursion shows it is never produced.')
     technique = 'Lean 4 theorems about a hand-written state-machine model + full-state correspondence with the real code'
     rule = ('cross product: declared type (none, DEFERRED, INTEGER, REAL, LOGICAL, derived same name / other name / with typedef, '
             'procedure same / other name) x shape (absent, (), rank 2) x dimensions (absent, (), rank 1) x parent mode (plain, '
@@ -472,6 +473,7 @@ class C13(Prop):
         from ..core import REPO
         src = (REPO / 'loki' / 'expression' / 'symbols.py').read_text()
         tiers = []
+        poptest = ''
         for node in ast.walk(ast.parse(src)):
             if isinstance(node, ast.ClassDef) and node.name == 'Variable':
                 for fn in node.body:
@@ -480,12 +482,15 @@ class C13(Prop):
                         rets.sort(key=lambda r: r.lineno)
                         tiers = [r.value.func.id for r in rets
                                  if isinstance(r.value, ast.Call) and isinstance(r.value.func, ast.Name)]
+                        for st in ast.walk(fn):
+                            if isinstance(st, ast.If) and "kwargs.pop('dimensions')" in ast.unparse(st.body[0]):
+                                poptest = ast.unparse(st.test)
         basic = [(m.name, int(m.value)) for m in BasicType]
         td = TypeDef(name='t', body=())
         samples = [('SymbolAttributes', SymbolAttributes(BasicType.DEFERRED)), ('DerivedType', DerivedType('t')),
                    ('ProcedureType', ProcedureType('p')), ('TypeDef', td),
                    ('Scalar', sym.Variable(name='a', type=SymbolAttributes(BasicType.INTEGER))),
-                   ('Array', sym.Variable(name='a', dimensions=())),
+                   ('Array', sym.Variable(name='a', dimensions=(sym.IntLiteral(1),))),
                    ('DeferredTypeSymbol', sym.Variable(name='a')),
                    ('ProcedureSymbol', sym.Variable(name='a', type=SymbolAttributes(ProcedureType('a')))),
                    ('DerivedTypeSymbol', sym.Variable(name='t', type=SymbolAttributes(DerivedType('t'))))]
@@ -496,6 +501,8 @@ class C13(Prop):
                 'namespace LokiModel.C13.Generated\n'
                 '/-- return statements of `Variable.__new__` in source order -/\n'
                 'def tierReturns : List String := [' + ', '.join(q(t) for t in tiers) + ']\n'
+                '/-- the test under which `Variable.__new__` drops the `dimensions` keyword (ast.unparse) -/\n'
+                'def dimsPopTest : String := ' + q(poptest) + '\n'
                 '/-- members of the `BasicType` int-enum with their values (value 0 is falsy) -/\n'
                 'def basicTypes : List (String × Nat) := [' + ', '.join(f'({q(n)}, {v})' for n, v in basic) + ']\n'
                 '/-- `bool(x)` of a sample object of each class used in a truthiness test of the anchored code -/\n'
@@ -509,7 +516,6 @@ class C13(Prop):
         """replays the history on the real code and checks, step by step, the statements of the property
         (written from properties.jsonl, not from the model)"""
         tdefs, ops = parse_hist(req)
-        has_deferred_member = any(str(m[1][1]) == 'deferred' for td in tdefs for m in td[1:])
         w = World(tdefs)
         fails = []
         seen = set()
@@ -560,8 +566,7 @@ class C13(Prop):
                         on_record = dumps(w.r_type(e))
             out = w.step(op)
             if dumps(out) == '(error recursion)':
-                fail(f'step {k} {dumps(op)}: RecursionError while resolving a type',
-                     'deferred-member-recursion' if has_deferred_member else None)
+                fail(f'step {k} {dumps(op)}: RecursionError while resolving a type', None)
             new = w.syms[nsym] if len(w.syms) > nsym else None
             # targeted reads first (reading a type can rewrite table entries, see member-lookup-rewrites-siblings)
             new_r = None
@@ -592,9 +597,7 @@ class C13(Prop):
                 if got != ref and consistent:
                     shape = None if t is None else t.__dict__.get('shape')
                     cls = None
-                    if got == 'Array' and not new.dimensions and not shape:
-                        cls = 'empty-dimensions-array'
-                    elif has_parent and new.scope is not None and (rec0 is None or not rec0.dtype):
+                    if has_parent and new.scope is not None and (rec0 is None or not rec0.dtype):
                         cls = 'deferred-entry-on-member'    # DEFERRED on record, the type definition is reported
                     elif not has_parent and '%' in given:
                         cls = 'qualified-name-without-parent'
@@ -627,9 +630,7 @@ class C13(Prop):
                     got = dumps(w.read_type(v))
                     if got != want:
                         cls = None
-                        if 'recursion' in got and has_deferred_member:
-                            cls = 'deferred-member-recursion'
-                        elif str(op[3][1]) == 'deferred' and v.parent is not None:
+                        if str(op[3][1]) == 'deferred' and v.parent is not None and 'recursion' not in got:
                             cls = 'deferred-entry-on-member'
                         fail(f'step {k} {dumps(op)}: symbol {j} ({v.name}) attached to a scope resolving the name to the '
                              f'updated scope reports {got}', cls)
@@ -658,8 +659,8 @@ class C13(Prop):
                     vn = v.name.lower()
                     if before[j] != after[j] and newname not in (vn, vn.split('%')[0]):
                         cls = None
-                        if 'recursion' in before[j] + after[j] and has_deferred_member:
-                            cls = 'deferred-member-recursion'
+                        if 'recursion' in before[j] + after[j]:
+                            cls = None
                         elif kind == 'create' and is_none(op[4]) and len(op[1]) > 1:
                             cls = 'qualified-name-without-parent'
                         elif kind == 'clone' and not is_keep(op[2]) and len(op[2]) > 1 and new is not None and new.parent is None:
@@ -685,8 +686,8 @@ class C13(Prop):
         return False
 
     def classes(self):
-        return ['empty-dimensions-array', 'qualified-name-without-parent', 'member-lookup-rewrites-siblings',
-                'deferred-entry-on-member', 'deferred-member-recursion']
+        # repaired by fix: commits (a reappearance is a plain VIOLATION): empty-dimensions-array, deferred-member-recursion
+        return ['qualified-name-without-parent', 'member-lookup-rewrites-siblings', 'deferred-entry-on-member']
 
 
 PROP = C13()
